@@ -328,10 +328,10 @@ PROPS = {
               dict(name="plain-cold-start", monitor="mon_thread", flavour="plain", config="cold", cases={"quick": 160, "thorough": 16000}, shards=8)],
         rule="one case = one round: the main thread builds 10 shared source/mask images (bits with transforms/filters/repeats/alpha maps/indexed palettes, solid, gradients) and 3 shared regions and uses each once, "
              "then T in {2,4,8,16} streams of 8..48 calls (composite with private images, composite/trapezoids/glyphs with a shared source or mask, scanlines longer than the general path's stack buffer in the 8-bit and the floating-point pipeline, "
-             "fill_boxes, region algebra with a shared read-only operand, rasterize/composite_trapezoids, private glyph caches, blt/fill) on thread-private destinations are run alone on the main thread and then concurrently "
+             "fill_boxes, region algebra with a shared read-only operand, rasterize/composite_trapezoids, composite/add_triangles (few and many), private glyph caches, blt/fill, separable filter tables + matrix arithmetic + a filtered composite) on thread-private destinations are run alone on the main thread and then concurrently "
              "(barrier start, sched_yield/spins between calls in every other round); oracles: ThreadSanitizer data-race reports (library and monitor both instrumented) and the per-call result digests of the concurrent run "
              "against the serial run; cold-start rounds fork a fresh process whose first library calls are made by T threads at once (no shared images) and compare with a forked serial run; evaluations = calls issued concurrently and compared; a cell = (call kind, result digest)",
-        floors={"any": {"rounds": 200, "cold_start_rounds": 100, "concurrent_calls": 40000, "composite-shared-source": 5000, "composite-long-scanline": 2000, "trapezoids": 2000, "glyphs": 1000, "region-algebra": 2000, "labels:threads": 6}},
+        floors={"any": {"rounds": 200, "cold_start_rounds": 100, "concurrent_calls": 40000, "composite-shared-source": 5000, "composite-long-scanline": 2000, "trapezoids-triangles": 2000, "filter-tables-matrix": 1000, "glyphs": 1000, "region-algebra": 2000, "labels:threads": 6}},
         assumptions=["only the interleavings that happened are judged", "shared images are used once by the main thread before the threads start (the statement's precondition)"],
     ),
     "C17": dict(
